@@ -163,6 +163,7 @@ type loopInfo struct {
 	latches []*ssa.BasicBlock
 	ordinal int
 	spec    *LoopSpec
+	head    *State // heap state at the loop head of the iteration being executed (after havoc and invariants)
 }
 
 func (x *fnExec) note(format string, a ...any) {
